@@ -269,6 +269,9 @@ def _pc_post(s):
     out = G("outcome")
     sends = G("sends")
     ok = (len(sends) == 1) & Not(s.old(old.target)._crashed)    # advanced exactly one step, and only when the target is up
+    # ... of ITS process, and the process receives exactly the value the continuation carries (the resolved value of
+    # the future it waited on, whatever that value is - 0, "", [] included; None after a plain delay)
+    ok = ok & mk_bool(sends[0][0] == old.process.t) & mk_bool(Any.unwrap(sends[0][1]) == Any.unwrap(old._send_value))
     if out in ("float", "int", "tuple-none", "tuple-event", "tuple-list"):
         effs = G("effects") if has_G("effects") and out in ("tuple-event", "tuple-list") else []
         n_eff = slen(effs) if not isinstance(effs, list) else len(effs)
@@ -491,3 +494,48 @@ fn(ME, "drive_all_of3", kind="function", setup=_setup_drv(("f1", "f2", "f3")), t
    ensures=[("not-before-the-last-input", lambda s: sym_and(*[Not(m) for m in s.result[1]])),
             ("all-values-in-argument-order-for-every-resolution-order", lambda s: s.result[0]._resolved & mk_bool(
                 Any.unwrap(s.result[0]._value) == Any.unwrap([s.v1, s.v2, s.v3])))])
+
+
+# ---- an input shared by two combinators: deciding one composite must not disturb the other waiter (each combinator
+# only ADDS its own callback to an input; callbacks registered by others stay until the input settles)
+def drive_shared_input_any_any(f1, f2, f3, v1, v2, b_first):
+    if b_first:
+        cb = any_of(f2, f3)
+        ca = any_of(f1, f2)
+    else:
+        ca = any_of(f1, f2)
+        cb = any_of(f2, f3)
+    f1.resolve(v1)          # decides ca; f2 (shared) is still pending
+    mid = cb._resolved
+    f2.resolve(v2)          # must still reach cb
+    return ca, cb, mid
+
+
+def drive_shared_input_any_all(f1, f2, f3, v1, v2, v3, b_first):
+    if b_first:
+        cb = all_of(f2, f3)
+        ca = any_of(f1, f2)
+    else:
+        ca = any_of(f1, f2)
+        cb = all_of(f2, f3)
+    f1.resolve(v1)
+    f3.resolve(v3)
+    mid = cb._resolved
+    f2.resolve(v2)
+    return ca, cb, mid
+
+
+fn(ME, "drive_shared_input_any_any", kind="function", setup=_setup_drv(("f1", "f2", "f3")), teardown=_teardown_pc,
+   args={"f1": FUT, "f2": FUT, "f3": FUT, "v1": Any, "v2": Any, "b_first": Bool},
+   requires=[lambda s: _fresh_unsettled(s.f1, s.f2, s.f3)],
+   ensures=[("first-composite-decided-by-its-first-input", lambda s: s.result[0]._resolved & mk_bool(
+                Any.unwrap(s.result[0]._value) == _any_val(0, s.v1))),
+            ("other-waiter-on-the-shared-input-still-resumed", lambda s: Not(s.result[2]) & s.result[1]._resolved & mk_bool(
+                Any.unwrap(s.result[1]._value) == _any_val(0, s.v2)))])
+fn(ME, "drive_shared_input_any_all", kind="function", setup=_setup_drv(("f1", "f2", "f3")), teardown=_teardown_pc,
+   args={"f1": FUT, "f2": FUT, "f3": FUT, "v1": Any, "v2": Any, "v3": Any, "b_first": Bool},
+   requires=[lambda s: _fresh_unsettled(s.f1, s.f2, s.f3)],
+   ensures=[("first-composite-decided-by-its-first-input", lambda s: s.result[0]._resolved & mk_bool(
+                Any.unwrap(s.result[0]._value) == _any_val(0, s.v1))),
+            ("other-waiter-on-the-shared-input-still-resumed", lambda s: Not(s.result[2]) & s.result[1]._resolved & mk_bool(
+                Any.unwrap(s.result[1]._value) == Any.unwrap([s.v2, s.v3])))])
